@@ -87,6 +87,7 @@ type concEnv struct {
 	mu     sync.Mutex
 	names  map[string]string // lease id -> L(m#a)
 	shared []string          // leases granted during the prefix, in grant order
+	ref    bool              // sequential reference: a long-poll dequeue is a dequeue at the instant it is placed
 }
 
 type concView struct {
@@ -185,7 +186,13 @@ func (v *concView) exec(s Step, prefix bool) string {
 		n, err := be.EnqueueBatch(envs)
 		return fmt.Sprintf("enqueue_batch %v -> %d %s", ids, n, concErr(err))
 	case "dequeue":
-		resp, err := st.Dequeue(queue.DequeueRequest{Route: s.Route, Target: s.Target, Batch: s.Batch, LeaseTTL: s.TTL})
+		dreq := queue.DequeueRequest{Route: s.Route, Target: s.Target, Batch: s.Batch, LeaseTTL: s.TTL}
+		if s.Delay > 0 && !v.env.ref {
+			// long poll: the caller waits (blocked, in the scheduler's eyes) until
+			// another caller's enqueue wakes it
+			dreq.MaxWait = s.Delay
+		}
+		resp, err := st.Dequeue(dreq)
 		var parts []string
 		for _, it := range resp.Items {
 			name := fmt.Sprintf("L(%s#%d)", it.ID, it.Attempt)
@@ -399,6 +406,9 @@ type concRec struct {
 	Call, Ret int // scheduler step stamps; Ret < 0: never returned (or returned after the crash instant)
 	Out       string
 	NoOut     bool // first half of a split by-filter call: nothing to compare
+	// Attempts: long-poll dequeue only - the scheduler steps at which the caller
+	// set out on each of its attempts (every attempt but the last came back empty)
+	Attempts []int
 }
 
 // splitFilterCalls: the records as the reference executes them (see
@@ -407,14 +417,37 @@ type concRec struct {
 func splitFilterCalls(recs []*concRec) []*concRec {
 	var out []*concRec
 	for _, r := range recs {
+		if r.Step.Op == "dequeue" && len(r.Attempts) > 1 && !r.pending() {
+			// A long-poll dequeue is as many dequeues as it made attempts, each at
+			// its own instant inside the call (an attempt that comes back empty
+			// still sweeps expired leases and prunes); all but the last are empty.
+			k := len(r.Attempts)
+			if k > 60 {
+				k = 60
+			}
+			for j := 0; j < k; j++ {
+				c := *r
+				c.Idx = 64*r.Idx + j
+				c.Step.Delay = 0
+				if j > 0 {
+					c.Call = r.Attempts[j]
+				}
+				if j < k-1 {
+					c.Ret = r.Attempts[j+1] - 1
+					c.Out = strings.SplitN(r.Out, " -> ", 2)[0] + " -> [] ok"
+				}
+				out = append(out, &c)
+			}
+			continue
+		}
 		if _, ok := filterOpStates[r.Step.Op]; !ok {
 			c := *r
-			c.Idx = 2 * r.Idx
+			c.Idx = 64 * r.Idx
 			out = append(out, &c)
 			continue
 		}
 		a, b := *r, *r
-		a.Idx, b.Idx = 2*r.Idx, 2*r.Idx+1
+		a.Idx, b.Idx = 64*r.Idx, 64*r.Idx+1
 		a.Step.Op, b.Step.Op = r.Step.Op+".select", r.Step.Op+".apply"
 		a.NoOut = true
 		out = append(out, &a, &b)
@@ -450,7 +483,7 @@ func concReference(p *Program, prefix []Step, order []*concRec, ntasks int) conc
 		return concRefResult{trouble: "reference store: " + err.Error()}
 	}
 	defer closeFn()
-	env := &concEnv{store: st, clock: clock, names: map[string]string{}}
+	env := &concEnv{store: st, clock: clock, names: map[string]string{}, ref: true}
 	pv := &concView{env: env}
 	for _, s := range prefix {
 		pv.exec(s, true)
@@ -705,11 +738,25 @@ func runConcOnce(p *Program, prefix []Step, block Step, cache map[string]concRef
 	sched.DetectBlocked = true
 	sched.Watchdog = 120 * time.Second
 	twoHandles := block.Handles == 2 && !memory
+	longPoll := false
+	for _, ts := range block.Tasks {
+		for _, st := range ts {
+			if st.Op == "dequeue" && st.Delay > 0 {
+				longPoll = true
+			}
+		}
+	}
 	sched.SetArmed(func(label string) bool {
 		if memory {
 			return strings.HasPrefix(label, "queue.MemoryStore.")
 		}
 		if !strings.HasPrefix(label, "queue.SQLiteStore.") {
+			return false
+		}
+		// A waiting caller goes from its empty-handed attempt to the wait without
+		// a stop: an enqueue that falls between the two is caught by the product's
+		// poll timer (25 ms of real time), which this world has set out of reach.
+		if longPoll && strings.HasPrefix(label, "queue.SQLiteStore.Dequeue#") {
 			return false
 		}
 		// "#d" points sit where the caller may hold its pooled connection: they
@@ -777,6 +824,20 @@ func runConcOnce(p *Program, prefix []Step, block Step, cache map[string]concRef
 	}
 	var recs []*concRec
 	var recMu sync.Mutex
+	if longPoll {
+		sched.OnRelease = func(t *Task, label string) {
+			if label != "queue.SQLiteStore.dequeueOnce#1" {
+				return
+			}
+			recMu.Lock()
+			for _, r := range recs {
+				if tasks[r.Task] == t && r.Ret < 0 && r.Step.Op == "dequeue" && r.Step.Delay > 0 {
+					r.Attempts = append(r.Attempts, sched.Steps)
+				}
+			}
+			recMu.Unlock()
+		}
+	}
 	extra := map[int]queue.Store{}
 	if block.Handles == 2 && !memory {
 		for ti := 1; ti < len(block.Tasks); ti++ {
@@ -804,6 +865,38 @@ func runConcOnce(p *Program, prefix []Step, block Step, cache map[string]concRef
 		view := &concView{env: env, store: extra[ti]}
 		tasks[ti] = sched.Go(fmt.Sprintf("t%d", ti), "conc", func() any {
 			for oi, s := range block.Tasks[ti] {
+				if s.Reason == "after-longpoll-started" || s.Reason == "poller-at-rest" {
+					// Time passes only while the waiting caller is at rest (between
+					// calls, in its wait, or finished): a call that has read the clock
+					// and is then overtaken by an advance is not an atomic call at any
+					// one instant, which is what the reference can reproduce. The rest
+					// of the wait passes only once the caller has fixed its deadline
+					// (it waits, or is back already): otherwise nobody would end the wait.
+					for spins := 0; spins < 5000; spins++ {
+						recMu.Lock()
+						var first *concRec
+						for _, r := range recs {
+							if r.Task == 0 && r.Idx == 0 {
+								first = r
+							}
+						}
+						at := tasks[0].ParkedAt()
+						resting := tasks[0].Done() || sched.Blocked(tasks[0]) || ((at == "start" || at == "op") && tasks[0].Parked())
+						started := tasks[0].Done() || sched.Blocked(tasks[0]) || (first != nil && first.Ret >= 0)
+						recMu.Unlock()
+						ok := resting
+						if s.Reason == "after-longpoll-started" {
+							ok = resting && started
+							if s.Op != "advance" {
+								ok = started || (first != nil && strings.HasPrefix(at, "queue.SQLiteStore.dequeueOnce"))
+							}
+						}
+						if ok || disk.Dead() {
+							break
+						}
+						sched.Park("gate")
+					}
+				}
 				sched.Park("op")
 				if disk.Dead() {
 					return nil // the process is gone: later calls are never made
@@ -861,6 +954,15 @@ func runConcOnce(p *Program, prefix []Step, block Step, cache map[string]concRef
 	})
 	for _, r := range recs {
 		res.Ops++
+		if r.Step.Op == "dequeue" && r.Step.Delay > 0 {
+			res.probe("conc.longpoll")
+			if len(r.Attempts) > 1 {
+				res.probe("conc.longpoll.waited_and_woken")
+				if !strings.HasSuffix(r.Out, "-> [] ok") {
+					res.probe("conc.longpoll.woken_by_its_message")
+				}
+			}
+		}
 		if r.pending() {
 			res.logf("t%d.%d [%d,crash) in flight: %s", r.Task, r.Idx, r.Call, strings.SplitN(r.Out, " -> ", 2)[0])
 			res.probe("conc.op_in_flight_at_crash")
@@ -1046,6 +1148,7 @@ type ConcProfile struct {
 	Crash      int // crash probability in tenths
 	Limits     int // small max_depth (reject / drop_oldest) probability in tenths
 	Sweep      int // programs whose block is swept over all single-preemption schedules, per mille
+	LongPoll   int // SQLite, one handle: one caller long-polls an empty route while the other lets time pass and enqueues, probability in tenths
 }
 
 func GenConcProgram(t *rapid.T, prof ConcProfile) *Program {
@@ -1207,6 +1310,39 @@ func GenConcProgram(t *rapid.T, prof ConcProfile) *Program {
 		}
 		block.Tasks = append(block.Tasks, ops)
 	}
+	longPoll := false
+	if prof.LongPoll > 0 && p.Store.Backend == "sqlite" && rapid.IntRange(0, 9).Draw(t, "longpoll?") < prof.LongPoll {
+		// Caller 0 asks for a message of /r0 and is prepared to wait; caller 1 lets
+		// time pass, enqueues (for /r0 or for somebody else), lets the rest of the
+		// wait pass and enqueues for a third route, which ends the wait if it is
+		// still on. The long-poll timer is real time and set out of reach: what
+		// wakes the waiting caller is another caller's enqueue.
+		longPoll = true
+		p.Store.PollInterval = time.Hour
+		p.Store.MaxDepth, p.Store.DropPolicy = 10000, "reject"
+		wait := 30 * time.Second
+		t0 := []Step{{Op: "dequeue", Route: "/r0", Batch: rapid.IntRange(1, 2).Draw(t, "lp.batch"), Delay: wait,
+			TTL: rapid.SampledFrom([]time.Duration{5 * time.Second, 30 * time.Second, 45 * time.Second}).Draw(t, "lp.ttl")}}
+		switch rapid.IntRange(0, 3).Draw(t, "lp.then") {
+		case 0:
+			t0 = append(t0, Step{Op: "ack", LeaseRef: intp(0)})
+		case 1:
+			t0 = append(t0, Step{Op: "extend", LeaseRef: intp(0), Delay: 10 * time.Second})
+		}
+		var t1 []Step
+		for k := rapid.IntRange(1, 3).Draw(t, "lp.n"); k > 0; k-- {
+			t1 = append(t1, Step{Op: "advance", Reason: "poller-at-rest", D: rapid.SampledFrom([]time.Duration{time.Second, 4 * time.Second, 10 * time.Second, 20 * time.Second}).Draw(t, "lp.adv")})
+			e := newEnq("lp")
+			t1 = append(t1, e)
+			if rapid.IntRange(0, 2).Draw(t, "lp.deq?") == 0 {
+				t1 = append(t1, Step{Op: "dequeue", Route: "/r0", Batch: 1, TTL: 30 * time.Second})
+			}
+		}
+		t1 = append(t1, Step{Op: "advance", D: wait + time.Second, Reason: "after-longpoll-started"})
+		nid++
+		t1 = append(t1, Step{Op: "enqueue", Env: &EnvSpec{ID: fmt.Sprintf("m%d", nid), Route: "/wake", Target: "pull"}, Reason: "after-longpoll-started"})
+		block.Tasks = [][]Step{t0, t1}
+	}
 	// the choice list is drawn as runs (who, for how many decisions): a call has
 	// to get some way into its statements before the other caller cuts in, which
 	// a coin flip per decision almost never produces
@@ -1221,6 +1357,11 @@ func GenConcProgram(t *rapid.T, prof ConcProfile) *Program {
 	}
 	// (rapid's integer draws favour small values, so a rare event is not drawn
 	// but derived from a digest of what has been drawn so far)
+	if longPoll {
+		// one drawn schedule, no process death: the waiting caller is the subject
+		p.Steps = append(p.Steps, block)
+		return p
+	}
 	if int(fnvHash(string(mustJSON(block))+string(mustJSON(p)))%1000) < prof.Sweep {
 		// every single-preemption schedule instead of one drawn schedule
 		block.Sweep = true
